@@ -534,6 +534,8 @@ def _get_validity_mask(
     A numpy array of booleans indicating which genes
     are valid markers for this cluster pair
     """
+    n_valid = min(n_valid, n_genes)
+
     if valid_gene_idx is not None:
         prior_invalid_genes = np.ones(n_genes, dtype=bool)
         prior_invalid_genes[valid_gene_idx] = False
